@@ -161,7 +161,7 @@ PROPS["C02"] = dict(
     stages=[rust(id="DOC", args={"flavor": "c02"}), rust(id="OBS", args={"dir": "{out}/cases"}), py("pyref.checks.docchecks", args={"prop": "C02"})],
     rule="program = 1-6 pages (5 page sizes incl. fractional, rotation 0/90/180/270), 3-30 drawing/text steps per page (paths, fills, strokes, RGB/gray/CMYK colours, line width, q/Q, cm, text in 8 standard fonts with delimiters and Latin-1), raw RGB / gray / RGBA images, annotations, outlines, metadata; every program under xref table|stream x object streams x compression x version 1.4/1.5/1.7/2.0. Non-trivial: >=2 pages or >=1 image, and >=10 operators; distinct by (program, configuration)",
     assumptions=["the model's content is the page's own in-memory serialisation (hook H5); API-call -> operator fidelity is C21's subject", "annotation, outline and metadata *text* is judged by C10/C28, here only counts"],
-    floors={"quick": {"evaluations": 300, "distinct": 150, "counters": {"obs": 500, "programs_with_100_or_more_pages": 1, "programs_reusing_one_image_name_across_pages": 1}}, "thorough": {"evaluations": 1500, "distinct": 700}},
+    floors={"quick": {"evaluations": 300, "distinct": 150, "counters": {"obs": 500, "programs_with_100_or_more_pages": 1, "programs_reusing_one_image_name_across_pages": 1}}, "thorough": {"evaluations": 1000, "distinct": 400}},
     level_text="Sampled programs, exhaustive over the 32-point configuration lattice for each program; exact oracles (token and sample equality).",
     level_note="Trusted base: pyref/pdf.py (strict reader, anchored to repository fixtures), hook H5.",
 )
@@ -173,7 +173,7 @@ PROPS["C03"] = dict(
     stages=[rust(id="DOC", args={"flavor": "c03"}), rust(id="OBS", args={"dir": "{out}/cases"}), py("pyref.checks.docchecks", args={"prop": "C03"})],
     rule="C02's programs with hostile text (delimiters, controls, cp1252, BMP, astral) in content, metadata, annotations and outlines x 32 configurations, a quarter of them additionally encrypted (4 strengths). Every written file counts as non-trivial; distinct by file",
     assumptions=["only rules the specification states with 'shall'; whitespace and key order are free", "a benign hybrid scan (xref.hybrid_fill) is not counted as recovery"],
-    floors={"quick": {"evaluations": 300, "distinct": 300, "counters": {"opened_without_recovery": 400}}, "thorough": {"evaluations": 1500, "distinct": 800}},
+    floors={"quick": {"evaluations": 300, "distinct": 300, "counters": {"opened_without_recovery": 400}}, "thorough": {"evaluations": 600, "distinct": 300}},
     level_text="Sampled programs x all configurations, each file judged by an independent validator and by the hook-instrumented library reader.",
     level_note="Trusted base: pyref/validate.py (self-test with one negative file per rule), pyref/pdf.py, hooks H3.",
 )
